@@ -112,6 +112,40 @@ def allof_cases(ctx):
     return out
 
 
+def nested_cases():
+    """composites nested inside a branch of a composite, sharing a referenced branch with the enclosing one ("an entity and its child both extend Base")"""
+    out = []
+    base = {"type": "object", "properties": {"id": {"type": "string", "minLength": 2}}, "required": ["id"]}
+    other = {"type": "object", "properties": {"tag": {"type": "integer", "minimum": 1}}, "required": ["tag"]}
+    k = 0
+    for inner_ref, twice in (("Base", False), ("Other", False), ("Base", True)):
+        inner = [{"$ref": "#/$defs/" + inner_ref}, {"type": "object", "properties": {"name": {"type": "string"}}, "required": ["name"]}]
+        if twice:
+            inner = [{"$ref": "#/$defs/Base"}, {"$ref": "#/$defs/Other"}, inner[1]]
+        outer = [{"$ref": "#/$defs/Base"}, {"type": "object", "properties": {"child": {"allOf": inner}}, "required": ["child"]}]
+        root = {"type": "object", "$defs": {"Base": base, "Other": other}, "properties": {"u": {"allOf": outer}}, "required": ["u"]}
+        good_child = {"name": "n"}
+        if inner_ref == "Base" or twice:
+            good_child["id"] = "cd"
+        if inner_ref == "Other" or twice:
+            good_child["tag"] = 3
+        docs = [{"doc": {"u": {"id": "ab", "child": good_child}}, "cls": "all-branches", "path": ("u",)}]
+        for key in list(good_child):
+            c = dict(good_child)
+            del c[key]
+            docs.append({"doc": {"u": {"id": "ab", "child": c}}, "cls": "inner-branch-required", "path": ("u", "child", key)})
+        bad = dict(good_child)
+        if "id" in bad:
+            bad["id"] = "c"
+            docs.append({"doc": {"u": {"id": "ab", "child": bad}}, "cls": "inner-branch-constraint", "path": ("u", "child", "id")})
+        docs.append({"doc": {"u": {"child": good_child}}, "cls": "branch-required", "path": ("u", "id")})
+        docs.append({"doc": {"u": {"id": "ab"}}, "cls": "branch-required", "path": ("u", "child")})
+        docs.append({"doc": {"u": {"id": "ab", "child": 5}}, "cls": "branch-constraint", "path": ("u", "child")})
+        k += 1
+        out.append(Case("c11n%d" % k, root, docs, fam="allOf/nested-shared-ref/%s%s" % (inner_ref, "+twice" if twice else "")))
+    return out
+
+
 def anyof_cases(ctx):
     out = []
     k = 0
@@ -202,7 +236,7 @@ def multi_file_cases():
 def run(ctx):
     ctx.proof_step(PROPS_FILE)
     mf = multi_file_cases()
-    cases = allof_cases(ctx) + anyof_cases(ctx)
+    cases = allof_cases(ctx) + anyof_cases(ctx) + nested_cases()
     run_cases(ctx, cases + mf, "c11")
     nmf = 0
     for c in mf:
